@@ -38,7 +38,7 @@ def rule_totality(ctx):
                            "documented-panic external API without disposition in the leader-election closure", g.loc(g.blocks[bi]["t"].get("ln")))
     prof = common.cargo_profile_panic_abort()
     table = ctx.table("panic_sites.json")
-    auto, ntab, new = common.match_table(ctx, R, sites, table, prof.get("dev") == "abort", "Schedule::view_leader")
+    auto, ntab, new = common.match_table(ctx, R, sites, table, prof.get("dev") == "abort", "Schedule::view_leader", closure=cl)
     ctx.floor(R, "bodies in closure", len(cl), 4)
     ctx.floor(R, "panic-capable sites inventoried", len(sites), 6)
 
